@@ -3,7 +3,7 @@ from ..lockprops import make_jobs, replay_lock, run_lock_job
 
 ID = "C08"
 LEVEL = "exploration"
-PROFILE = {"garbage": 0.05, "ctl": 0.25, "semicolon": False, "sleep": True, "ota": True, "unicode": 0.1}
+PROFILE = {"garbage": 0.05, "ctl": 0.25, "semicolon": False, "sleep": True, "ota": True, "reload": 0.05, "unicode": 0.1}
 
 
 def jobs(tier, seed):
@@ -45,8 +45,10 @@ def finish(agg, tier):
         "floors": [("bursts_judged", c.get("bursts_judged", 0), 2000), ("bursts_releasing_2plus", c.get("bursts_releasing_2plus", 0), 500),
                    ("bursts_with_desired_sets", c.get("bursts_with_desired_sets", 0), 300),
                    ("requests_answered_with_desired", c.get("requests_answered_with_desired", 0), 100),
-                   ("desired_stored", c.get("desired_stored", 0), 500)],
-        "assumptions": ["order among the desired-value sets of a burst and their ack flag are not judged"],
+                   ("desired_stored", c.get("desired_stored", 0), 500),
+                   ("reloads", c.get("reloads", 0), 200)],
+        "assumptions": ["in a third of the histories the node table goes through the persistence file (json / pickle) and back at random points: the tree survives, sleep state, withheld replies, desired values and reboot flags start empty",
+                        "order among the desired-value sets of a burst and their ack flag are not judged"],
         "show": ["histories", "bursts_judged", "bursts_releasing_2plus", "bursts_with_desired_sets", "requests_answered_with_desired",
                  "desired_stored", "controller_sets_refused"],
     }
